@@ -24,6 +24,14 @@ pub struct Case {
     /// Psk / AuthPsk with PskBundle::new("", "") (RFC 9180 defines no output there: R1 is not consulted)
     #[serde(default)]
     pub empty_bundle: bool,
+    /// a short SEQUENCE of messages (with an empty one in the middle) opened by one context through the
+    /// allocating form only and by another through the in-place form only: same results, same final state
+    #[serde(default)]
+    pub sequence: bool,
+    /// Auth modes with an identity pair whose public half does not belong to the private half (the API
+    /// accepts it): single-shot and composed forms must still agree
+    #[serde(default)]
+    pub odd_identity: bool,
 }
 
 pub struct C14;
@@ -55,13 +63,19 @@ impl Part for C14 {
                     let shapes_first = shapes[0];
                     for (pt_len, aad_len) in shapes {
                         tag += 1;
-                        v.push(Case { suite, mode, info_len, pt_len, aad_len, tag, boundary: false, empty_bundle: false });
+                        v.push(Case { suite, mode, info_len, pt_len, aad_len, tag, boundary: false, empty_bundle: false, sequence: false, odd_identity: false });
+                        if (pt_len, aad_len) == shapes_first {
+                            v.push(Case { suite, mode, info_len, pt_len: 9, aad_len: 1, tag, boundary: false, empty_bundle: false, sequence: true, odd_identity: false });
+                            if mode.has_auth() {
+                                v.push(Case { suite, mode, info_len, pt_len: 9, aad_len: 1, tag, boundary: false, empty_bundle: false, sequence: false, odd_identity: true });
+                            }
+                        }
                         if mode.has_psk() && (pt_len, aad_len) == shapes_first {
                             // the empty bundle is a legal PSK-mode input of this crate (C15)
-                            v.push(Case { suite, mode, info_len, pt_len: 7, aad_len: 2, tag, boundary: false, empty_bundle: true });
+                            v.push(Case { suite, mode, info_len, pt_len: 7, aad_len: 2, tag, boundary: false, empty_bundle: true, sequence: false, odd_identity: false });
                         }
                         if mode == Mode::Base && (pt_len, aad_len) == shapes_first && (t || suite.kdf == suite.kem.kdf()) {
-                            v.push(Case { suite, mode, info_len, pt_len: 5, aad_len: 3, tag, boundary: true, empty_bundle: false });
+                            v.push(Case { suite, mode, info_len, pt_len: 5, aad_len: 3, tag, boundary: true, empty_bundle: false, sequence: false, odd_identity: false });
                         }
                     }
                 }
@@ -76,6 +90,11 @@ impl Part for C14 {
         let ops = suite_ops(c.suite);
         let k = keys(c.suite.kem, c.tag, cfg.seed);
         let info = bytes(Fill::Mix, c.info_len, 10, cfg.seed);
+        let mut k = k;
+        if c.odd_identity {
+            // the public half of another key pair
+            k.pk_s = keys(c.suite.kem, c.tag + 77, cfg.seed).pk_s;
+        }
         let m = if c.empty_bundle { mode_spec(c.mode, &k, b"", b"") } else { mode_spec(c.mode, &k, &bytes(Fill::Mix, 32, 11, cfg.seed), &bytes(Fill::Mix, 22, 12, cfg.seed)) };
         let pt = bytes(Fill::Mix, c.pt_len, 140, cfg.seed);
         let aad = bytes(Fill::Mix, c.aad_len, 141, cfg.seed);
@@ -85,6 +104,10 @@ impl Part for C14 {
 
         if c.boundary {
             boundary_case(&mut out, cfg, c, ops.as_ref(), &k, &m, &info);
+            return out;
+        }
+        if c.sequence {
+            sequence_case(&mut out, c, ops.as_ref(), &k, &m, &info);
             return out;
         }
         // R1's expectation
@@ -154,6 +177,10 @@ impl Part for C14 {
             out.fail("RNG draw log differs between composed and single-shot in-place sealing");
         }
 
+        if c.odd_identity {
+            // an inconsistent identity pair cannot be authenticated by anybody: only the sealing side is compared
+            return out;
+        }
         // ---- opening: the valid message and every failure class ----
         let body = ct_ref[..ct_ref.len() - nt].to_vec();
         let tag = ct_ref[ct_ref.len() - nt..].to_vec();
@@ -230,6 +257,44 @@ impl Part for C14 {
         }
         let _ = (body, tag, Aead::ExportOnly);
         out
+    }
+}
+
+/// one receiver opens a sequence through open() only, another through open_in_place_detached() only
+fn sequence_case(out: &mut CaseOut, c: &Case, ops: &dyn crate::suites::SuiteOps, k: &Keys, m: &crate::suites::ModeSpec, info: &[u8]) {
+    let nt = c.suite.aead.nt();
+    let (enc, mut refctx) = match r1_setup_s(c.suite, m, &k.pk_r, info, &k.ikm_e) {
+        Some(x) => x,
+        None => {
+            out.fail_machinery("R1 setup failed");
+            return;
+        }
+    };
+    let (mut ra, mut rb) = match (ops.setup_receiver(m, &k.sk_r, &enc, info), ops.setup_receiver(m, &k.sk_r, &enc, info)) {
+        (Obs::Ok(a), Obs::Ok(b)) => (a, b),
+        _ => {
+            out.fail("setup_receiver failed");
+            return;
+        }
+    };
+    // plaintext lengths: 9, 0 (empty), 0, 17, 0, 1
+    for (i, pl) in [9usize, 0, 0, 17, 0, 1].into_iter().enumerate() {
+        let pt = vec![i as u8 + 1; pl];
+        let aad = vec![0xa0 + i as u8; i % 3];
+        let ct = refctx.seal(&aad, &pt).unwrap();
+        let a = ra.open(&ct, &aad);
+        let (body, tag) = ct.split_at(ct.len() - nt);
+        let mut buf = body.to_vec();
+        let b = rb.open_ip(&mut buf, &aad, tag).map(|_| buf.clone());
+        out.transitions += 2;
+        if a != Obs::Ok(pt.clone()) || b != Obs::Ok(pt.clone()) {
+            out.fail(format!("message #{} (|pt| = {}) of a sequence: open() gives {}, open_in_place_detached() gives {}, both should return the plaintext", i, pl, a.class(), b.class()));
+            return;
+        }
+        if ra.seq_state() != rb.seq_state() {
+            out.fail(format!("after message #{} (|pt| = {}) the allocating receiver is at {:?} and the in-place receiver at {:?}", i, pl, ra.seq_state(), rb.seq_state()));
+            return;
+        }
     }
 }
 
@@ -356,7 +421,8 @@ impl Part for C15 {
         let t = cfg.tier.thorough();
         let mut v = vec![];
         let l = if t { 80 } else { 40 };
-        for psk_len in 0..=l {
+        let psk_lens: Vec<usize> = (0..=l).chain([255usize, 256, 257, 511, 512, 513, 1024, 65535, 65536, 65537]).collect();
+        for psk_len in psk_lens {
             for fill in if t { vec![Fill::Zero, Fill::Ones, Fill::Mix] } else { vec![Fill::Zero, Fill::Mix] } {
                 v.push(Case15::Bundle { psk_len, fill });
             }
@@ -389,7 +455,9 @@ impl Part for C15 {
                 let suite = SuiteId { kem: Kem::X25519, kdf: crate::refmodel::Kdf::Sha256, aead: Aead::ExportOnly };
                 let ops = suite_ops(suite);
                 let k = keys(Kem::X25519, 15_999, cfg.seed);
-                for id_len in 0..=max {
+                // every length up to max, plus the lengths where a narrowing cast of the length would wrap
+                let id_lens: Vec<usize> = (0..=max).chain([255usize, 256, 257, 511, 512, 513, 1024, 65535, 65536, 65537]).collect();
+                for id_len in id_lens {
                     let psk = bytes(*fill, *psk_len, 1, cfg.seed);
                     let psk_id = bytes(*fill, id_len, 2, cfg.seed);
                     let m = crate::suites::ModeSpec { kind: 1, psk: psk.clone(), psk_id: psk_id.clone(), sk_s: vec![], pk_s: vec![] };
